@@ -358,7 +358,8 @@ def build_model(factory, inst, name='m'):
     m = Model(name, factory)
     byid = {}
     for a in inst['assets']:
-        obj = getattr(factory.ns, a['type'])(name=a['name'])
+        cls = getattr(factory.ns, a['type'])
+        obj = cls(name=a['name']) if a['name'] is not None else cls()      # unnamed: the model generates '<type>:<id>'
         for k, v in a.get('defenses', {}).items():
             setattr(obj, k, float(v))
         m.add_asset(obj, asset_id=a['id'])
